@@ -99,6 +99,8 @@ type FileRec struct {
 	MAC string `json:"mac"`
 	IP  int    `json:"ip"`
 	XID string `json:"xid"`
+	Cur bool   `json:"cur"` // the expiry in the file is the expiry the handler holds in memory for that lease
+	exp time.Time
 }
 
 type driver struct {
@@ -471,7 +473,8 @@ type yamlLease struct {
 		MAC []int  `yaml:"mac"`
 		IP  string `yaml:"ip"`
 	} `yaml:"addr"`
-	XID []int `yaml:"xid"`
+	XID        []int     `yaml:"xid"`
+	DHCPExpiry time.Time `yaml:"dhcpexpiry"`
 }
 
 func ints2bytes(v []int) []byte {
@@ -515,7 +518,7 @@ func (d *driver) decodeFile() ([]FileRec, string) {
 	for _, l := range t.Leases {
 		ip, _ := netip.ParseAddr(l.Addr.IP)
 		out = append(out, FileRec{K: vh.DhcpCIDName(ints2bytes(l.ClientID)), MAC: vh.DhcpMACName(net.HardwareAddr(ints2bytes(l.Addr.MAC))),
-			IP: d.nw.Abs(ip), XID: vh.DhcpXIDName(ints2bytes(l.XID))})
+			IP: d.nw.Abs(ip), XID: vh.DhcpXIDName(ints2bytes(l.XID)), Cur: true, exp: l.DHCPExpiry})
 	}
 	sort.Slice(out, func(i, j int) bool { return out[i].K < out[j].K })
 	st := "ok"
@@ -529,7 +532,24 @@ func (d *driver) snapshot(rec map[string]interface{}) {
 	rec["leases"] = d.leases()
 	rec["next"] = d.cursors()
 	rec["hosts"], rec["ment"] = d.session()
-	rec["file"], rec["fst"] = d.fileRecs()
+	recs, st := d.fileRecs()
+	// currency of the persisted expiry: false iff the handler holds the same allocated binding with another expiry
+	out := make([]FileRec, len(recs))
+	copy(out, recs)
+	if d.h != nil {
+		for _, l := range d.h.VerifLeases() {
+			if l.State != dhcp.StateAllocated {
+				continue
+			}
+			k, ip := vh.DhcpCIDName(l.ClientID), d.nw.Abs(l.IP)
+			for i := range out {
+				if out[i].K == k && out[i].IP == ip && !out[i].exp.Equal(l.DHCPExpiry) {
+					out[i].Cur = false
+				}
+			}
+		}
+	}
+	rec["file"], rec["fst"] = out, st
 }
 
 func (d *driver) drain() {
